@@ -232,42 +232,42 @@ Definition load_tempo (d : delim) (comment : option re) (text : str) : wres (lis
     match cs with
     | [c1; c2; c3] =>
         let t1 := nums c1 in let t2 := nums c2 in
+        if negb (Nat.eqb (length t1) 1) then (RaiseNoRow ValueError, None) else    (* "... should contain only one line." *)
         match nums c3 with
-        | [] => (RaiseNoRow IndexError, None)                          (* weight = weight[0]  -- BEFORE the one-line test *)
+        | [] => (RaiseNoRow IndexError, None)       (* weight[0]; unreachable: the columns have equal lengths
+                                                       (IOProps.load_tempo_never_index_error) *)
         | w :: _ =>
             let tempi := t1 ++ t2 in                                   (* np.concatenate([t1, t2]) *)
-            if negb (Nat.eqb (length t1) 1) then (RaiseNoRow ValueError, None) else
             let wn := validate_tempi (map val tempi) in
             if xle xzero (val w) && xle (val w) (Fin 1%Q) then (ROk (tempi, w), wn) else (RaiseNoRow ValueError, wn)
         end
     | _ => unreachable end).
 
-(* load_patterns: pattern_list / pattern / occurrence are the three Python lists *)
+(* load_patterns: pattern_list / pattern / occurrence are the three Python lists; rows are numbered from 1 and the
+   pattern / occurrence header lines count *)
 Definition close_occ {A} (pattern : list (list A)) (occ : list A) := if nonempty occ then pattern ++ [occ] else pattern.
 Definition close_pat {A} (plist : list (list A)) (pattern : list A) := if nonempty pattern then plist ++ [pattern] else plist.
-Fixpoint patterns_loop (ls : list str) (plist : list (list (list (num * num)))) (pattern : list (list (num * num)))
+Fixpoint patterns_loop (row : nat) (ls : list str) (plist : list (list (list (num * num)))) (pattern : list (list (num * num)))
          (occ : list (num * num)) : rres (list (list (list (num * num)))) :=
   match ls with
   | [] => ROk (close_pat plist (close_occ pattern occ))
   | line :: rest =>
-      if contains s_pattern line then patterns_loop rest (close_pat plist (close_occ pattern occ)) [] []
-      else if contains s_occurrence line then patterns_loop rest plist (close_occ pattern occ) []
+      if contains s_pattern line then patterns_loop (S row) rest (close_pat plist (close_occ pattern occ)) [] []
+      else if contains s_occurrence line then patterns_loop (S row) rest plist (close_occ pattern occ) []
       else match split_on c_comma line with                            (* line.split(",") *)
-           | [] => RaiseNoRow IndexError                               (* unreachable: split gives >= 1 piece *)
-           | a :: more =>
+           | [a; b] =>
                match conv a with                                       (* float(string_values[0]) is evaluated first *)
-               | None => RaiseNoRow ValueError
-               | Some x => match more with
-                           | [] => RaiseNoRow IndexError               (* string_values[1] *)
-                           | b :: _ => match conv b with
-                                       | None => RaiseNoRow ValueError
-                                       | Some y => patterns_loop rest plist pattern (occ ++ [(x, y)])
-                                       end
+               | None => RaiseNoRow ValueError                         (* float's own message: no row *)
+               | Some x => match conv b with
+                           | None => RaiseNoRow ValueError
+                           | Some y => patterns_loop (S row) rest plist pattern (occ ++ [(x, y)])
                            end
                end
+           | _ => RaiseAt row ValueError                               (* "Expected 2 columns, got {} at {}:{row}:" *)
            end
   end.
-Definition load_patterns (text : str) : rres (list (list (list (num * num)))) := patterns_loop (lines text) [] [] [].
+(* for row, line in enumerate(input_file.readlines(), 1) *)
+Definition load_patterns (text : str) : rres (list (list (list (num * num)))) := patterns_loop 1 (lines text) [] [] [].
 
 (* load_ragged_time_series: rows are numbered from start_row = 1 if header else 0; `header` does nothing else *)
 Fixpoint ragged_rows (d : delim) (comment : option re) (row : nat) (ls : list str) : rres (list (num * list num)) :=
